@@ -9,9 +9,9 @@ extern "C" {
 }
 typedef long double LD;
 
-enum { L_PLAIN, L_FUZZY, L_NEURO, L_EXACT, L_REAL, L_OUT_LIMIT_ACTIVE, L_OUT_LIMIT_RELEASED, L_SUM_CLAMP_ACTIVE, L_SUM_CLAMP_RELEASED, L_ZERO_MID, L_MODE_SWITCH, L_POS_EQ_INC, L_GAIN_CHANGE, L_ZERO_RULES, L_LONG };
+enum { L_PLAIN, L_FUZZY, L_NEURO, L_EXACT, L_REAL, L_OUT_LIMIT_ACTIVE, L_OUT_LIMIT_RELEASED, L_SUM_CLAMP_ACTIVE, L_SUM_CLAMP_RELEASED, L_ZERO_MID, L_MODE_SWITCH, L_POS_EQ_INC, L_GAIN_CHANGE, L_ZERO_RULES, L_LONG, L_RULES_RECONFIGURED };
 static char const *const labels[] = {"plain_pid", "fuzzy_pid", "neuro_pid", "exact_class", "real_class", "output_limit_active", "output_limit_released_again", "integrator_clamp_active",
-                                     "integrator_clamp_released_again", "zero_mid_history", "mode_switched_within_history", "positional_vs_incremental_compared", "gains_changed_mid_history", "fuzzy_all_zero_rule_base", "history_ge_50", nullptr};
+                                     "integrator_clamp_released_again", "zero_mid_history", "mode_switched_within_history", "positional_vs_incremental_compared", "gains_changed_mid_history", "fuzzy_all_zero_rule_base", "history_ge_50", "fuzzy_tables_or_operator_changed_mid_history", nullptr};
 static char const *const metrics[] = {"max_steps", nullptr};
 static uint8_t const dict[] = {0, 1, 2, 3, 7, 8};
 static vp_info const info = {"C12", "pid", "", labels, metrics, 500, dict, sizeof(dict)};
@@ -269,8 +269,36 @@ static void case_fuzzy(Tape &t, Ctx &cx)
     for (unsigned s = 0; s < steps && !t.done(); ++s)
     {
         ++cx.rep->subcases;
-        uint8_t op = t.u8() % 10;
+        uint8_t op = t.u8() % 12;
         cx.hash.add(op);
+        if (op >= 10)
+        {
+            if (s == 0) { op = 1; }
+            else if (op == 10)
+            {
+                // reconfigure a live controller: the same tables, but a different subset of them present (null = gain not scheduled);
+                // set_kpid is deliberately not re-issued - the base gains are part of the configuration that stays
+                uint8_t m = t.u8();
+                f.use_kp = (m & 1) != 0; f.use_ki = (m & 2) != 0; f.use_kd = (m & 4) != 0;
+                cx.log("set_rule mid-history: kp %d ki %d kd %d\n", f.use_kp, f.use_ki, f.use_kd);
+                a_pid_fuzzy_set_rule(&z, f.n, me, mec, f.use_kp ? kp : nullptr, f.use_ki ? ki : nullptr, f.use_kd ? kd : nullptr);
+                if (have_fresh) { a_pid_fuzzy_set_rule(&fresh, f.n, me, mec, f.use_kp ? kp : nullptr, f.use_ki ? ki : nullptr, f.use_kd ? kd : nullptr); }
+                cx.label(L_RULES_RECONFIGURED);
+                cx.hash.add(m & 7);
+                continue;
+            }
+            else
+            {
+                // a different operator on a live controller
+                f.opr = t.u8() % 7;
+                cx.log("set_opr mid-history: %u\n", f.opr);
+                a_pid_fuzzy_set_opr(&z, f.opr);
+                if (have_fresh) { a_pid_fuzzy_set_opr(&fresh, f.opr); }
+                cx.label(L_RULES_RECONFIGURED);
+                cx.hash.add(f.opr);
+                continue;
+            }
+        }
         if (op == 7 && s > 0)
         {
             a_pid_fuzzy_zero(&z);
